@@ -485,6 +485,8 @@ tfpdeftests1:
 		$$ = append($$, $3)
 		if $<expr>3 != nil {
 			$<exprs>$ = append($<exprs>$, $<expr>3)
+		} else if len($<exprs>$) != 0 {
+			yylex.(*yyLex).SyntaxError("non-default argument follows default argument")
 		}
 	}
 
@@ -578,6 +580,8 @@ vfpdeftests1:
 		$$ = append($$, $3)
 		if $<expr>3 != nil {
 			$<exprs>$ = append($<exprs>$, $<expr>3)
+		} else if len($<exprs>$) != 0 {
+			yylex.(*yyLex).SyntaxError("non-default argument follows default argument")
 		}
 	}
 
